@@ -15,6 +15,7 @@ import (
 	"github.com/flant/shell-operator/pkg/hook/config"
 	. "github.com/flant/shell-operator/pkg/hook/task_metadata"
 	htypes "github.com/flant/shell-operator/pkg/hook/types"
+	kemtypes "github.com/flant/shell-operator/pkg/kube_events_manager/types"
 	"github.com/flant/shell-operator/pkg/task"
 	zz "github.com/flant/shell-operator/pkg/zzverif"
 )
@@ -53,10 +54,35 @@ func VH_C18_limiter() {
 	op := e.op
 	op.TaskQueues.NewNamedQueue("main", nil)
 	name := zz.ConcretizeStr(zz.OneOf("task_hook", "hookA", "hookB"))
+	// the shape of the task: every binding kind, Synchronization with and without
+	// a group, executeHookOnSynchronization on and off
+	btype := htypes.BindingType(zz.ConcretizeStr(zz.OneOf("btype", string(htypes.Schedule), string(htypes.OnKubernetesEvent), string(htypes.OnStartup), string(htypes.KubernetesValidating), string(htypes.KubernetesConversion))))
 	bc := bctx.BindingContext{Binding: "b"}
-	bc.Metadata.BindingType = htypes.Schedule
-	bt := task.NewTask(HookRun).WithQueueName("main").WithMetadata(HookMetadata{HookName: name, Binding: "b", BindingType: htypes.Schedule, BindingContext: []bctx.BindingContext{bc}})
+	bc.Metadata.BindingType = btype
+	meta := HookMetadata{HookName: name, Binding: "b", BindingType: btype, ExecuteOnSynchronization: true}
+	if btype == htypes.OnKubernetesEvent {
+		if zz.Bool("is_synchronization") {
+			bc.Type = kemtypes.TypeSynchronization
+			meta.ExecuteOnSynchronization = zz.Bool("execute_on_synchronization")
+		} else {
+			bc.Type = kemtypes.TypeEvent
+		}
+		if zz.Bool("has_group") {
+			meta.Group = "g"
+			bc.Metadata.Group = "g"
+		}
+	}
+	meta.BindingContext = []bctx.BindingContext{bc}
+	bt := task.NewTask(HookRun).WithQueueName("main").WithMetadata(meta)
 	op.TaskQueues.GetMain().AddLast(bt)
+	// a second task of the same hook behind it, so that the combining path has work to do
+	if zz.Bool("second_task") {
+		bc2 := bc
+		meta2 := meta
+		meta2.BindingContext = []bctx.BindingContext{bc2}
+		op.TaskQueues.GetMain().AddLast(task.NewTask(HookRun).WithQueueName("main").WithMetadata(meta2))
+	}
+	mustRun := !(btype == htypes.OnKubernetesEvent && bc.Type == kemtypes.TypeSynchronization && !meta.ExecuteOnSynchronization)
 	waitFails := zz.Bool("wait_cancelled")
 	var log []string
 	hook.VRateWaitFn = func(h *hook.Hook) error {
@@ -75,7 +101,11 @@ func VH_C18_limiter() {
 		zz.Assert(len(log) == 1 && log[0] == "wait:"+name, "cancelled_wait_runs_nothing")
 		zz.Assert(res.Status == "Repeat", "cancelled_wait_repeats_the_task")
 	} else {
-		zz.Assert(len(log) == 2 && log[0] == "wait:"+name && log[1] == "run:"+name, "execution_waits_once_on_its_own_limiter_first")
+		if mustRun {
+			zz.Assert(len(log) == 2 && log[0] == "wait:"+name && log[1] == "run:"+name, "execution_waits_once_on_its_own_limiter_first")
+		} else {
+			zz.Assert(len(log) <= 1 && (len(log) == 0 || log[0] == "wait:"+name), "skipped_synchronization_runs_nothing")
+		}
 		zz.Assert(res.Status == "Success", "execution_proceeds_after_wait")
 	}
 	zz.Reach("end")
